@@ -184,7 +184,13 @@ func (c *Connection) dispatchInbound(_ uint32, _ uint32, call *InboundCall, fram
 			LogField{"remotePeer", c.remotePeerInfo},
 			ErrField(err),
 		).Error("Couldn't read method.")
-		c.opts.FramePool.Release(frame)
+		// Release through the fragments, which is idempotent, rather than
+		// releasing the raw frame: if arg1 continued past the first fragment,
+		// the initial frame was already released when the reader moved on.
+		if call.initialFragment != nil {
+			call.initialFragment.done()
+		}
+		call.releasePreviousFragment()
 		return
 	}
 
